@@ -66,6 +66,8 @@ def run(ctx):
     rule_timer(ctx, F)
     rule_timer_insert(ctx, F)
     rule_budget(ctx, F)
+    rule_recvbuf(ctx, F)
+    rule_drain(ctx, F)
     rule_xfr(ctx, F)
     rule_xfr_first(ctx, F)
     rule_raise(ctx, F)
@@ -806,3 +808,55 @@ def rule_raise(ctx, F):
                "Transport::run replaces the response timeout in effect for the whole connection by the limit of the request it "
                "has just accepted, whatever is pending: a transfer with a 300 ms limit waits for the 19 s of a single request "
                "accepted after it (and the other way round)", b.where(bi))
+
+
+def rule_recvbuf(ctx, F):
+    """(C15.dgdl) The datagram transport reads into one buffer and cuts it to the length of what arrived.  Before every
+    receive the buffer is brought back to the configured size: on every way round the receive loop the call to recv()
+    is preceded by `buf.resize(recv_size, ..)` -- or an ignored short datagram (garbage, a foreign ID) leaves the buffer
+    short and the real answer that follows is cut to that length."""
+    from rulelib import on_every_cycle
+    R = "C15.dgdl"
+    bs = [b for p, b in F.bodies.items() if re.search(r"^net::client::dgram::Connection::<.*>::handle_request_impl::\{closure#0\}$", p)]
+    if not ctx.anchor(R, "dgram::Connection::handle_request_impl", len(bs) == 1):
+        return
+    b = bs[0]
+    recvs = [bb for bb, t in b.calls() if re.search(r"AsyncDgramRecvEx::recv$", t["fn"] or "")]
+    cuts = [bb for bb, t in b.calls() if re.search(r"Vec::<.*>::truncate$", t["fn"] or "")]
+    sizes = [bb for bb, t in b.calls() if re.search(r"Vec::<.*>::resize$", t["fn"] or "")]
+    if not ctx.anchor(R, "recv() into the buffer and the truncate() after it", len(recvs) == 1 and len(cuts) >= 1, b.where()):
+        return
+    ok = bool(sizes) and all(on_every_cycle(b, recvs[0], s_) for s_ in sizes[:1]) and any(b.dominates(s_, recvs[0]) for s_ in sizes)
+    if ok and len(sizes) >= 1:
+        # every cycle through recv passes *some* resize
+        ok = True
+        for s2, lab in b.succs(recvs[0]):
+            if recvs[0] in b.reach_from(s2, removed_blocks=sizes):
+                ok = False
+    ctx.ob(R, b, "the receive buffer has its full size for every datagram", ok,
+           "handle_request_impl truncates the buffer to the length of each datagram it receives but does not resize it before the "
+           "next recv() on every way round the loop: after an ignored datagram shorter than the answer, the answer is cut off "
+           "(the caller gets a mutilated message, or the request times out)", b.where(recvs[0]))
+
+
+def rule_drain(ctx, F):
+    """(C15.ans) The stream transport's reader hands complete replies to the main loop through a channel and reports its
+    own end separately.  When the reader has ended, the replies it had already sent are delivered first: on the way to
+    the error that fails all pending requests, the main loop drains the channel (try_recv .. demux_reply) -- otherwise an
+    answer that arrived together with the EOF is lost and its request fails."""
+    R = "C15.ans"
+    bs = [b for p, b in F.bodies.items() if re.search(r"^net::client::stream::Transport::<.*>::run::\{closure#0\}$", p)]
+    if not ctx.anchor(R, "stream::Transport::run", len(bs) == 1):
+        return
+    b = bs[0]
+    tr = [bb for bb, t in b.calls() if re.search(r"mpsc::Receiver::<.*>::try_recv$", t["fn"] or "")]
+    errs = [bb for bb, t in b.calls() if re.search(r"stream::Transport::<.*>::error$", t["fn"] or "")]
+    dm = [bb for bb, t in b.calls() if re.search(r"Transport::<.*>::demux_reply$", t["fn"] or "")]
+    if not ctx.anchor(R, "Transport::error calls in run", len(errs) >= 1, b.where()):
+        return
+    drained = [e for e in errs if any(b.dominates(t_, e) for t_ in tr)]
+    feeds = any(d in b.reach_from(t_) for t_ in tr for d in dm)
+    ctx.ob(R, b, "replies already read are delivered before the reader's end fails the pending requests", bool(drained) and feeds,
+           "Transport::run reports the reader's end with error(..) without first draining the reply channel (try_recv -> "
+           "demux_reply): a response that was read completely just before the EOF / read error is dropped and its request "
+           "completes with the stream error instead")
